@@ -224,7 +224,18 @@ def gen_reply_bytes(rng):
             if b:
                 b[rng.randrange(len(b))] = rng.choice(b'\r\n -0123456789a\x00\xff')
         data = bytes(b)
+    r = rng.random()
+    if r < 0.12 and data:
+        data = data[:rng.randrange(len(data) + 1)]       # the connection is lost at an arbitrary byte
+    elif r < 0.22 and b'\r' in data:
+        pos = [i for i, c in enumerate(data) if c == 13]
+        data = data[:rng.choice(pos) + 1]                # ... exactly between a CR and its LF
     return data
+
+
+def every_prefix(datas):
+    """connection loss after every byte of a reply stream"""
+    return [d[:k] for d in datas for k in range(len(d) + 1)]
 
 
 def stream_reply(ctx, datas, cutsets):
@@ -239,12 +250,19 @@ def stream_reply(ctx, datas, cutsets):
     replies = ctx.model.ask(reqs)
     by_data = {}
     for (data, segs), rep in zip(meta, replies):
-        real = fmt_reply(real_reply(segs))
+        real_res = real_reply(segs)
+        real = fmt_reply(real_res)
         tags = ['reply:' + real.split(' ')[0] + (':' + real.split(' ')[1] if real.startswith('exc') else '')]
         tags.append('reply:segs=%s' % ('1' if len(segs) <= 1 else '2-4' if len(segs) <= 4 else '5+'))
         ctx.case(('reply', data, tuple(segs)), nontrivial=len(data) > 0, tags=tags)
         if real != rep:
             ctx.disagree('reply', {'data': data, 'segs': segs}, rep, real)
+        res = real_res
+        if res[0] == 'ok':
+            consumed = data[:len(data) - len(res[3])]
+            if not consumed.endswith(b'\n'):
+                ctx.fail('reply-not-whole', 'read_reply', {'stream': 'reply', 'data': data, 'segs': segs},
+                         'a reply (code %s) was returned although the control stream ended inside its last line: %r' % (res[1], consumed[-30:]))
         prev = by_data.setdefault(data, (segs, real))
         if prev[1] != real:
             ctx.fail('segmentation-dependent', 'read_reply',
@@ -308,7 +326,8 @@ def stream_transfer(ctx, cases):
         res = real_transfer(d, e, c)
         if res[0] == 'complete':
             real = 'complete %s %s %s' % (enc(res[1]), res[2], 'None' if res[3] is None else '=' + enc(res[3]))
-            if not e or res[2] != 226 or res[1] != b''.join(d):
+            whole_lines = b''.join(c).split(b'\n')[:-1]
+            if not e or res[2] != 226 or res[1] != b''.join(d) or not any(l.startswith(b'226 ') for l in whole_lines):
                 ctx.fail('premature-complete', 'read_stream', {'stream': 'transfer', 'data': d, 'eof': e, 'ctrl': c},
                          'transfer reported complete: eof=%s code=%s' % (e, res[2]))
         elif res[0] == 'exc':
@@ -499,12 +518,15 @@ def run(ctx):
     datas = [gen_reply_bytes(rng) for _ in range(ctx.scale(250, 6000))]
     datas += [b'', b'220 ok\r\n', b'220-a\r\n220 b\r\n', b'220 a\r220 b\n', b'220-a\r\n b\r\n220 c\r\nrest']
     stream_reply(ctx, datas, [cutsets_for(rng, d, thorough) for d in datas])
+    pre = every_prefix([b'226 Transfer complete\r\n', b'226-Closing\r\n226 Transfer complete\r\n', b'150-a\r\n b\r\n150 c\r\n226 d\r\n',
+                        b'220 a\n', b'220 a\r\r\n'])
+    stream_reply(ctx, pre, [[[], list(range(1, len(d)))] for d in pre])
     # transfer
     tcases = []
     for _ in range(ctx.scale(150, 3000)):
         data = bytes(rng.randrange(256) for _ in range(rng.choice([0, 1, 5, 40, 5000])))
         dsegs = fakenet.segment(data, fakenet.random_cuts(rng, len(data)))
-        ctrl = rng.choice([b'226 done\r\n', b'226-a\r\n226 b\r\n', b'426 aborted\r\n', b'', b'226 done', b'150 x\r\n', b'550 no\r\n'])
+        ctrl = rng.choice([b'226 done\r\n', b'226-a\r\n226 b\r\n', b'426 aborted\r\n', b'', b'226 done', b'150 x\r\n', b'550 no\r\n', b'226 done\r', b'226-a\r\n226 b\r', b'226-a\r', b'22', b'226 done\n'])
         csegs = fakenet.segment(ctrl, fakenet.random_cuts(rng, len(ctrl)))
         tcases.append((dsegs, rng.random() < 0.8, csegs))
     stream_transfer(ctx, tcases)
